@@ -50,6 +50,7 @@ def raw_run(impl, scn, stream, chunking=None):
                     k = chunking(len(stream) - i)
                     p.stdin.write(stream[i:i + k]); p.stdin.flush(); i += k
                     if k < 64: time.sleep(0.0005)
+                    elif getattr(chunking, 'pause', 0): time.sleep(chunking.pause)     # let the daemon read this chunk on its own
                 p.stdin.close()
             except BrokenPipeError:
                 pass
@@ -150,6 +151,31 @@ def run(chk):
             if got[0] != 0 or filt(got[1]) != filt(exp[1]):
                 chk.violation("the same byte stream cut into different read() chunks (%s) is treated differently" % mode, "stream %r\nwhole: %r\nchunked: %r\nstderr %s" % (stream, exp[1], got[1], got[2][-800:]), "chunking")
                 break
+    # (d2) over-long junk lines cut by a read() boundary exactly where the rest of the line would read as a command for a live
+    #      client: the line is ONE line however it arrives (whatever buffering limit an implementation has, the remainder of a
+    #      discarded line must not be taken for a new line)
+    for L_ in (100, 513, 600, 1100, 4097, 9000):
+        for tailcmd in ("D", "H", "T"):
+            if len(chk.violations) >= 4: break
+            scn = Scn(True, False, [('a.svc', 'login')], [], 0, [], "over-long junk line split before a tail that looks like a command")
+            pre = b"7 C 1.2.3.4 1000 10.0.0.1 6667\n7 N host.example.org\n7 u ident\n7 n Nick\n"
+            junk = b"99 Z :" + b"x" * L_ + b" "
+            tail = b"7 " + tailcmd.encode() + b"\n"
+            post = b"7 U user :Real\n7 P :+x acct pw\n-1 X a.svc 7_1 :OK acct:1\n7 H\n"
+            stream = pre + junk + tail + post
+            cuts = [len(pre) + len(junk)]
+            sizes = iter([cuts[0], len(stream) - cuts[0]])
+            whole = raw_run(impl, scn, stream)
+            def two(n, it=sizes): return next(it, n)
+            two.pause = 0.15
+            parts = raw_run(impl, scn, stream, two)
+            nojunk = raw_run(impl, scn, pre + post)
+            chk.cov["evaluations"] += 1; chk.hist("chunking:over-long line cut before a command-like tail")
+            if parts[0] != 0 or whole[0] != 0 or filt(parts[1]) != filt(whole[1]) or filt(whole[1]) != filt(nojunk[1]):
+                chk.violation("an over-long junk line (%d bytes) delivered in two read() chunks, the second starting with %r, is not treated as one junk line" % (len(junk) + len(tail) - 1, tail[:-1]),
+                              "stream %r\n\nin one piece: exit %s %r\nin two chunks (cut at byte %d): exit %s %r\nwithout the junk line: exit %s %r\nstderr %s" % (stream, whole[0], whole[1], cuts[0], parts[0], parts[1], nojunk[0], nojunk[1], parts[2][-600:]), "chunking:long-line")
+            else:
+                chk.cov["traces_validated_against_impl"] += 1
     # (e) info requests and client traffic after a reload whose core.modules entry is written differently (other order, fewer names):
     #     nothing is loaded or unloaded by a reload, so the answers must be those of the same session without the reload, and no
     #     module may be left holding a name that the configuration tree has freed (D25)
